@@ -37,6 +37,30 @@ type Ref struct {
 	// built at compile time when optimisation is on). nil = count everything.
 	stack []interface{} // closure elements, innermost last
 	Steps int
+	// MaxSteps / MaxAlloc bound the cost of a reference evaluation (0 = default).
+	// Exceeding a bound is reported as a failure with TooBig set: generators
+	// reject such workloads; it is never compared with the library.
+	MaxSteps int
+	MaxAlloc int
+	total    int
+	TooBig   bool
+}
+
+const refDefaultMaxSteps = 400000
+const refDefaultMaxAlloc = 4000000
+
+func (r *Ref) alloc(n *N, size int) *EvalError {
+	r.Allocs = append(r.Allocs, size)
+	r.total += size
+	max := r.MaxAlloc
+	if max == 0 {
+		max = refDefaultMaxAlloc
+	}
+	if r.total > max {
+		r.TooBig = true
+		return r.fail(n, "reference allocation bound exceeded")
+	}
+	return nil
 }
 
 func NewRef(env *Env) *Ref { return &Ref{env: env} }
@@ -55,6 +79,14 @@ func (r *Ref) closureMark() string {
 // Eval evaluates n; on failure the returned value is nil.
 func (r *Ref) Eval(n *N) (v interface{}, err *EvalError) {
 	r.Steps++
+	maxSteps := r.MaxSteps
+	if maxSteps == 0 {
+		maxSteps = refDefaultMaxSteps
+	}
+	if r.Steps > maxSteps {
+		r.TooBig = true
+		return nil, r.fail(n, "reference step bound exceeded")
+	}
 	switch n.K {
 	case "int":
 		return n.I, nil
@@ -139,7 +171,9 @@ func (r *Ref) Eval(n *N) (v interface{}, err *EvalError) {
 			}
 			out = append(out, v)
 		}
-		r.Allocs = append(r.Allocs, len(out))
+		if e := r.alloc(n, len(out)); e != nil {
+			return nil, e
+		}
 		return out, nil
 	case "map":
 		out := make(map[string]interface{}, len(n.C))
@@ -150,7 +184,9 @@ func (r *Ref) Eval(n *N) (v interface{}, err *EvalError) {
 			}
 			out[p.S] = v
 		}
-		r.Allocs = append(r.Allocs, len(n.C))
+		if e := r.alloc(n, len(n.C)); e != nil {
+			return nil, e
+		}
 		return out, nil
 	case "idx":
 		a, err := r.Eval(n.C[0])
@@ -549,17 +585,20 @@ func (r *Ref) bin(n *N) (interface{}, *EvalError) {
 		if size < 0 {
 			size = 0
 		}
-		if size > 1<<24 {
+		if size > 1<<21 {
 			// Would not fit any budget the simulator uses; the definition says
 			// such a run fails (budget). Do not build it.
 			r.Allocs = append(r.Allocs, size)
+			r.TooBig = true
 			return nil, r.fail(n, "range too large for any budget")
+		}
+		if e := r.alloc(n, size); e != nil {
+			return nil, e
 		}
 		out := make([]int, size)
 		for i := range out {
 			out[i] = x + i
 		}
-		r.Allocs = append(r.Allocs, size)
 		return out, nil
 	case "contains", "startsWith", "endsWith":
 		x, ok1 := a.(string)
@@ -876,7 +915,9 @@ func (r *Ref) builtin(n *N) (interface{}, *EvalError) {
 				out = append(out, el)
 			}
 		}
-		r.Allocs = append(r.Allocs, len(out))
+		if e := r.alloc(n, len(out)); e != nil {
+			return nil, e
+		}
 		return out, nil
 	case "map":
 		out := make([]interface{}, 0, len(seq))
@@ -889,7 +930,9 @@ func (r *Ref) builtin(n *N) (interface{}, *EvalError) {
 			}
 			out = append(out, v)
 		}
-		r.Allocs = append(r.Allocs, len(out))
+		if e := r.alloc(n, len(out)); e != nil {
+			return nil, e
+		}
 		return out, nil
 	}
 	return nil, r.fail(n, "unknown builtin %s", n.S)
